@@ -59,7 +59,24 @@ Theorem C02_denitrification : forall (x : denit_in (T:=R)),
   (0 <= do_denit o -> Rsum (do_c1 o) <= Rsum (di_c1 x)).
 Proof. exact denitr_books. Qed.
 
+(* ... and on peat soils (three 30 cm blocks, each with its own rate) *)
+Theorem C02_denitrification_peat : forall (x : denitmo_in (T:=R)),
+  length (dm_c1 x) = 9%nat -> Forall (fun c => 0 <= c) (dm_c1 x) ->
+  let o := denitmo x in
+  Forall (fun c => 0 <= c) (dmo_c1 o) /\
+  Rsum (dm_c1 x) - (dmo_cum o - dm_cum x) <= Rsum (dmo_c1 o).
+Proof. exact denitmo_books. Qed.
+
+(* tillage mixing only redistributes mineral N over the mixing depth (its clamp can only add) *)
+Theorem C02_tillage_mixing_mineral_n : forall (c1 : list R) (m : nat),
+  (1 <= m <= length c1)%nat ->
+  Rsum c1 <= Rsum (@mix_c1 R RNum (INR m) m c1) /\
+  (Forall (fun c => 0 <= c) c1 -> Rsum (@mix_c1 R RNum (INR m) m c1) = Rsum c1).
+Proof. exact mix_c1_only_adds. Qed.
+
 Print Assumptions C02_transport_balance.
+Print Assumptions C02_denitrification_peat.
+Print Assumptions C02_tillage_mixing_mineral_n.
 Print Assumptions C02_clamp_only_adds.
 Print Assumptions C02_dispersion_telescopes.
 Print Assumptions C02_convection_telescopes.
